@@ -3,7 +3,7 @@
    Model: CoerceModel.v (code-shaped, three engines).  Reference: CoerceRef.v
    ([doc_scalar], [lift]: transcription of the documentation).  The standard-library
    functions the library only calls are the universally quantified record [O : oracles]. *)
-From DW Require Import PyStr T_Truthy CoerceModel CoerceRef CoerceProofs.
+From DW Require Import PyStr CharFacts T_Truthy CoerceModel CoerceRef CoerceProofs CoerceFloatProofs.
 From Coq Require Import Lia.
 
 (* Tie T: the truthy set regenerated from type_conv.TRUTHY_VALUES is the documented one
@@ -78,7 +78,7 @@ Qed.
    half-even, integer strings *)
 Theorem C04_int_v0 :
   forall O e j r, is_v1 e = false -> doc_scalar O e SInt j r ->
-  rmap VInt (as_int O j) = r.
+  rmap VInt (as_int j) = r.
 Proof.
   intros O e j r He H. rewrite <- (scalar_ref O e SInt j r) by assumption.
   destruct e; try discriminate; reflexivity.
@@ -87,7 +87,7 @@ Print Assumptions C04_int_v0.
 
 (* int, v1: fractional floats and float strings rejected, None not coerced *)
 Theorem C04_int_v1 :
-  forall O j r, doc_scalar O V1 SInt j r -> rmap VInt (load_int_v1 O j) = r.
+  forall O j r, doc_scalar O V1 SInt j r -> rmap VInt (load_int_v1 j) = r.
 Proof.
   intros O j r H. rewrite <- (scalar_ref O V1 SInt j r) by assumption. reflexivity.
 Qed.
@@ -134,7 +134,7 @@ Print Assumptions C04_datetime_numeric_v1.
 
 (* EnvWizard: digit strings at a datetime position are timestamps (UTC) *)
 Theorem C04_datetime_env_numeric_string :
-  forall O s f, numeric_doc s = true -> o_float_of_str O s = Ok f ->
+  forall O s f, numeric_doc s = true -> py_float_of_str s = Ok f ->
   load_scalar O Env SDateTime (JStr s) = rmap VDateTime (o_dt_fromts O true (NFloat f)).
 Proof. intros O s f Hn Hf. exact (scalar_ref O Env SDateTime _ _ (d_dt_env_numstr O s f Hn Hf)). Qed.
 Print Assumptions C04_datetime_env_numeric_string.
@@ -149,7 +149,7 @@ Theorem C04_timedelta_dispatch :
     rmap VTimedelta
       match j with
       | JStr s =>
-          if numeric_doc s then bind (o_float_of_str O s) (fun f => o_timedelta O (NFloat f))
+          if numeric_doc s then bind (py_float_of_str s) (fun f => o_timedelta O (NFloat f))
           else bind (o_timeparse O s) (fun r => match r with Some x => o_timedelta O x | None => Err EValue end)
       | JInt z => o_timedelta O (NInt z)
       | JFloat f => o_timedelta O (NFloat f)
@@ -261,3 +261,153 @@ Theorem C04_env_tuple_refuted :
   load O Env (TTup [TS SInt; TS SBool]) (JStr (S "1,yes")) = Err EOther.
 Proof. intro O. split; reflexivity. Qed.
 Print Assumptions C04_env_tuple_refuted.
+
+(* ===== numerals: which strings take the detour through float, and what it costs =============
+   float(str) and float(int) are concrete in the model (CoerceFloat.v: correct rounding of
+   binary64 on exact dyadics), so "int(float(s)) loses precision above 2^53" is a fact of the
+   model and the theorems below say where the engines may and may not take that detour. *)
+
+(* INTEGER STRINGS ARE EXACT.  For every integer literal - optional sign, any number of digits
+   (groups joined by single underscores), blanks around it, unbounded magnitude; by induction
+   over the digit lists - every engine loads exactly the integer the digits denote (Horner value
+   [il_val], defined in CoerceRef.v independently of the model's int()). *)
+Theorem C04_int_string_exact :
+  forall O e l, il_wf l = true -> load_scalar O e SInt (JStr (il_str l)) = Ok (VInt (il_val l)).
+Proof. exact load_int_lit. Qed.
+Print Assumptions C04_int_string_exact.
+Example C04_int_string_example :
+  let l := {| il_ws1 := S " "; il_sgn := SgMinus; il_first := (D9, []);
+              il_more := [(D0, [D0; D7]); (D1, [D9; D9]); (D2, [D5; D4]); (D7, [D4; D0]); (D9, [D9; D3])];
+              il_ws2 := [c_nl] |} in
+  il_wf l = true /\ il_str l = S " -9_007_199_254_740_993" ++ [c_nl] /\ il_val l = (- (2 ^ 53 + 1))%Z.
+Proof. repeat split. Qed.
+
+(* ... at every position: Optional, list element, tuple slots, dict values, any depth *)
+Theorem C04_int_string_everywhere :
+  forall O e c (g : jv -> option (res pv)),
+  (forall j r, g j = Some r ->
+     exists l, il_wf l = true /\ j = JStr (il_str l) /\ r = Ok (VInt (il_val l))) ->
+  forall j R, lift O e c g j = Some R -> load O e (plug c (TS SInt)) j = R.
+Proof.
+  intros O e c g Hg. apply everywhere. intros j r Hj.
+  destruct (Hg j r Hj) as (l & Hw & -> & ->). cbn [load]. apply load_int_lit. exact Hw.
+Qed.
+Print Assumptions C04_int_string_everywhere.
+Example C04_int_string_everywhere_example O :
+  let g := fun j => if jv_eqb j (JStr (S "-9007199254740993")) then Some (Ok (VInt (-9007199254740993))) else None in
+  (forall j r, g j = Some r -> exists l, il_wf l = true /\ j = JStr (il_str l) /\ r = Ok (VInt (il_val l))) /\
+  lift O V1 (CDict KStr (CTup [TS SStr] (COpt CHole) [])) g
+       (JDict [(S "k", JList [JStr (S "v"); JStr (S "-9007199254740993")])])
+  = Some (Ok (VDict [(VStr (S "k"), VTuple [VStr (S "v"); VInt (-9007199254740993)])])).
+Proof.
+  split; [|reflexivity]. intros j r H.
+  destruct (jv_eqb j (JStr (S "-9007199254740993"))) eqn:E; [|discriminate]. injection H as <-.
+  destruct j as [| | | |s| |]; try discriminate. cbn [jv_eqb] in E. apply pstr_eqb_eq in E. subst s.
+  exists {| il_ws1 := []; il_sgn := SgMinus; il_first := (D9, [D0; D0; D7; D1; D9; D9; D2; D5; D4; D7; D4; D0; D9; D9; D3]);
+            il_more := []; il_ws2 := [] |}.
+  repeat split.
+Qed.
+
+(* ... and as a dict KEY of type int (keys are coercion positions): the key of the loaded dict is
+   the exact integer, in every engine (compose with C04_everywhere for depth) *)
+Theorem C04_int_string_dict_key :
+  forall O e l (g : jv -> option (res pv)) v v',
+  il_wf l = true -> g v = Some (Ok v') ->
+  lift O e (CDict KInt CHole) g (JDict [(il_str l, v)]) = Some (Ok (VDict [(VInt (il_val l), v')])) /\
+  (forall t, (forall j r, g j = Some r -> load O e t j = r) ->
+     load O e (TDict KInt t) (JDict [(il_str l, v)]) = Ok (VDict [(VInt (il_val l), v')])).
+Proof.
+  intros O e l g v v' Hw Hv.
+  assert (H : lift O e (CDict KInt CHole) g (JDict [(il_str l, v)]) = Some (Ok (VDict [(VInt (il_val l), v')]))).
+  { cbn [lift doc_items option_map doc_entries sty_of_kty]. rewrite Hv. rewrite (load_int_lit O e l Hw). reflexivity. }
+  split; [exact H|]. intros t Hg.
+  exact (everywhere O e (CDict KInt CHole) t g Hg _ _ H).
+Qed.
+Print Assumptions C04_int_string_dict_key.
+
+(* the decision itself: a non-empty string WITHOUT a decimal point never goes through float in
+   any engine - it is handed to int() as it is (signed or not, digits or not) *)
+Theorem C04_int_string_no_float_route :
+  forall O e s, s <> [] -> contains_char c_dot s = false ->
+  load_scalar O e SInt (JStr s) = rmap VInt (py_int_of_str s).
+Proof.
+  intros O e s Hne Hd. destruct e; cbn [load_scalar as_int load_int_v1]; rewrite Hd;
+    try reflexivity; destruct s; congruence.
+Qed.
+Print Assumptions C04_int_string_no_float_route.
+(* why that matters: the same string sent through float first (what `not s.isdigit()` instead of
+   `'.' in s` would do to every signed string) comes back as a different integer *)
+Example C04_float_detour_is_lossy :
+  bind (py_float_of_str (S "-9007199254740993")) (fun f => if fl_is_integer f then fl_trunc f else Err EValue)
+    = Ok (-9007199254740992)%Z /\
+  py_int_of_str (S "-9007199254740993") = Ok (-9007199254740993)%Z.
+Proof. split; vm_compute; reflexivity. Qed.
+
+(* "FLOAT STRINGS" d.000 (a point followed by zeros only): every engine takes the detour through
+   float(s) - round() in the default engine / Env, is_integer() and int() in v1 - and below 2^53
+   the detour is exact *)
+Theorem C04_int_point_zero_exact :
+  forall O e l k, nl_wf l = true -> nl_frac l = Some k -> (Z.abs (nl_val l) < 2 ^ 53)%Z ->
+  load_scalar O e SInt (JStr (nl_str l)) = Ok (VInt (nl_val l)).
+Proof. exact load_int_point_zero. Qed.
+Print Assumptions C04_int_point_zero_exact.
+Example C04_int_point_zero_example :
+  let l := {| nl_ws1 := []; nl_sgn := SgMinus; nl_int := [D4; D2]; nl_frac := Some 2%nat; nl_ws2 := S " " |} in
+  nl_wf l = true /\ nl_str l = S "-42.00 " /\ nl_val l = (-42)%Z /\ (Z.abs (nl_val l) < 2 ^ 53)%Z.
+Proof. repeat split. Qed.
+
+(* ... and from 2^53 + 1 on it is the value of the double: the documentation calls these
+   "float strings", they are read as floats (binary64), in all three engines alike.  The bound
+   of the previous theorem is sharp. *)
+Theorem C04_int_point_zero_is_a_float :
+  forall O e, load_scalar O e SInt (JStr (S "9007199254740993.0")) = Ok (VInt 9007199254740992) /\
+              load_scalar O e SInt (JStr (S "9007199254740993")) = Ok (VInt 9007199254740993).
+Proof. intros O e. destruct e; split; vm_compute; reflexivity. Qed.
+Print Assumptions C04_int_point_zero_is_a_float.
+
+(* float(str) of the model is correctly rounded: with (a, b) = num/den on the grid 2^e, the
+   mantissa m is the integer nearest to a/b (ties to even), the grid is the binary64 grid of the
+   value (2^52 <= m <= 2^53 with e >= -1074, or the subnormal grid e = -1074), and the result is
+   below 2^1024 (otherwise the model answers overflow: inf for strings, OverflowError for ints) *)
+Theorem C04_float_nearest :
+  forall num den m e, (0 < num)%Z -> (0 < den)%Z -> b64_round_pos num den = Some (m, e) ->
+  let a := fst (b64_scaled num den e) in
+  let b := snd (b64_scaled num den e) in
+  (0 < b)%Z /\
+  (2 * Z.abs (a - m * b) <= b)%Z /\ ((2 * Z.abs (a - m * b) = b)%Z -> Z.even m = true) /\
+  (-1074 <= e)%Z /\
+  ((2 ^ 52 <= m <= 2 ^ 53)%Z \/ (e = -1074 /\ 0 <= m <= 2 ^ 52)%Z) /\
+  ((0 <= e)%Z -> (m * 2 ^ e < 2 ^ 1024)%Z).
+Proof. exact b64_round_pos_nearest. Qed.
+Print Assumptions C04_float_nearest.
+Example C04_float_nearest_example :
+  py_float_of_str (S "9007199254740993") = Ok (FDy (2 ^ 52) 1) /\
+  py_float_of_str (S "-2.5e0") = Ok (FDy (-5629499534213120) (-51)) /\
+  py_float_of_str (S "4.9e-324") = Ok (FDy 1 (-1074)) /\
+  py_float_of_str (S "1.7976931348623159e308") = Ok (FInf false) /\
+  py_float_of_str (S "1_0.5e1_0") = Ok (FDy 6881280000000000 (-16)) /\
+  py_float_of_str (S "1__0") = Err EValue /\
+  fl_of_Z (2 ^ 1024 - 2 ^ 970) = Err EOverflow /\
+  b64_round_pos 1 3 = Some (6004799503160661, -54)%Z.
+Proof. repeat split; vm_compute; reflexivity. Qed.
+
+(* float positions: float(s) of a plain numeral (optional sign, digits, optionally a point and
+   zeros) and float(z) of a JSON int are exact below 2^53, in every engine *)
+Theorem C04_float_exact :
+  forall O e,
+  (forall l, nl_wf l = true -> (Z.abs (nl_val l) < 2 ^ 53)%Z ->
+     exists j, (0 <= j)%Z /\
+       load_scalar O e SFloat (JStr (nl_str l)) = Ok (VFloat (FDy (nl_val l * 2 ^ j) (- j))) /\
+       fl_eq_Z (FDy (nl_val l * 2 ^ j) (- j)) (nl_val l) = true) /\
+  (forall z, (Z.abs z < 2 ^ 53)%Z ->
+     exists j, (0 <= j)%Z /\
+       load_scalar O e SFloat (JInt z) = Ok (VFloat (FDy (z * 2 ^ j) (- j))) /\
+       fl_eq_Z (FDy (z * 2 ^ j) (- j)) z = true).
+Proof.
+  intros O e. split.
+  - intros l Hw Hn. destruct (load_float_num O e l Hw Hn) as (j & Hj & E).
+    exists j. repeat split; [exact Hj|exact E|apply fl_eq_Z_exact; exact Hj].
+  - intros z Hz. destruct (load_float_int O e z Hz) as (j & Hj & E).
+    exists j. repeat split; [exact Hj|exact E|apply fl_eq_Z_exact; exact Hj].
+Qed.
+Print Assumptions C04_float_exact.
